@@ -12,6 +12,7 @@ import (
 var (
 	regFullSystemPolicy = util.ToRegexRepl([]string{
 		`r(PU|U)x,`, `rPx,`,
+		`r(pu|u)x,`, `rpx,`, // Same modes once lower-cased by the hotfix task
 	})
 )
 
